@@ -95,7 +95,8 @@ def draw_ops(rng: random.Random, cfg, n_ops: int) -> list:
     ds = rng.randrange(1 << 30)
     if cfg['model'] and r < 0.55:
       kind = rng.choice(['implicit_terms', 'implicit_inverse', 'explicit_terms',
-                         'diagnostic', 'step', 'step', 'step_filters'])
+                         'diagnostic', 'step', 'step', 'step_filters',
+                         'sharding_constraints', 'maybe_transform'])
       op = {'op': kind, 'ds': ds}
       if kind == 'implicit_terms':
         op['method'] = rng.choice([None, None, 'dense', 'sparse'])
@@ -454,6 +455,36 @@ def build_model_op(world: World, op):
     er = world.equation('ref', 'moist' if moist else 'dry', None)
     es = world.equation('sh', 'moist' if moist else 'dry', None)
     return er.explicit_terms, es.explicit_terms, [('modal', st)], 'modal'
+  if name == 'sharding_constraints':
+    st = gen.make_pe_state(rs, gr, L, tracers=('q',), with_time=True)
+    def mk(c):
+      def f(s):
+        a = c.with_dycore_sharding(s)
+        b = c.dycore_to_physics_sharding(a)
+        d = c.physics_to_dycore_sharding(b)
+        return c.with_physics_sharding(d), d
+      return f
+    return mk(m['c_ref']), mk(m['c_sh']), [('modal', st)], 'modal'
+  if name == 'maybe_transform' and (
+      tuple(m['c_sh'].horizontal.modal_shape) == tuple(m['c_sh'].horizontal.nodal_shape)
+      or tuple(gr.modal_shape) == tuple(gr.nodal_shape)):
+    # maybe_to_nodal / maybe_to_modal decide by shape; when the padded modal and
+    # nodal shapes coincide that inference is ambiguous by construction
+    name = 'diagnostic'
+  if name == 'diagnostic':
+    st = gen.make_pe_state(rs, gr, L, tracers=('q',))
+    fr = lambda s: primitive_equations.compute_diagnostic_state(s, m['c_ref'])
+    fs = lambda s: primitive_equations.compute_diagnostic_state(s, m['c_sh'])
+    return fr, fs, [('modal', st)], 'nodal'
+  if name == 'maybe_transform':
+    st = gen.make_pe_state(rs, gr, L, tracers=('q',), with_time=True)
+    def mk(c):
+      def f(s):
+        nod = coordinate_systems.maybe_to_nodal(s, c)
+        nod2 = coordinate_systems.maybe_to_nodal(nod, c)       # already nodal: untouched
+        return coordinate_systems.maybe_to_modal(nod2, c)
+      return f
+    return mk(m['c_ref']), mk(m['c_sh']), [('modal', st)], 'modal'
   if name in ('step', 'step_filters'):
     eqn = op.get('eqn', 'dry')
     tr = ('specific_humidity',) if eqn == 'moist' else ('q',)
@@ -479,7 +510,7 @@ def build_model_op(world: World, op):
 
 
 MODEL_OPS = ('diagnostic', 'implicit_terms', 'implicit_inverse', 'explicit_terms',
-             'step', 'step_filters')
+             'step', 'step_filters', 'sharding_constraints', 'maybe_transform')
 FILTER_OPS = ('exp_filter', 'hdiff_filter', 'exp_step_filter', 'hdiff_step_filter',
               'exp_leapfrog_step_filter')
 TRANSFORM_OPS = ('to_nodal', 'to_modal', 'roundtrip', 'to_nodal_tree',
